@@ -19,6 +19,7 @@ from datetime import (
     timedelta,
     timezone,
 )
+from decimal import Decimal
 from io import BytesIO
 from itertools import count
 from typing import (
@@ -1645,9 +1646,9 @@ class Message(ABC):
                     )
                 elif sub_cls == timedelta:
                     value = (
-                        [timedelta(seconds=float(item[:-1])) for item in value]
+                        [_Duration.delta_from_json(item) for item in value]
                         if isinstance(value, list)
-                        else timedelta(seconds=float(value[:-1]))
+                        else _Duration.delta_from_json(value)
                     )
                 elif not meta.wraps:
                     value = (
@@ -2064,11 +2065,19 @@ class _Duration(Duration):
 
     @staticmethod
     def delta_to_json(delta: timedelta) -> str:
-        parts = str(delta.total_seconds()).split(".")
-        if len(parts) > 1:
-            while len(parts[1]) not in (3, 6, 9):
-                parts[1] = f"{parts[1]}0"
-        return f"{'.'.join(parts)}s"
+        # integer arithmetic: str(float) switches to exponent notation below
+        # 1e-4 ("1e-06s") and cannot hold microseconds for long spans
+        total_us = delta // timedelta(microseconds=1)
+        sign = "-" if total_us < 0 else ""
+        seconds, us = divmod(abs(total_us), 10**6)
+        if us % 1000 == 0:
+            return f"{sign}{seconds}.{us // 1000:03d}s"
+        return f"{sign}{seconds}.{us:06d}s"
+
+    @staticmethod
+    def delta_from_json(value: str) -> timedelta:
+        # exact decimal arithmetic: float() loses microseconds for long spans
+        return timedelta(microseconds=int(Decimal(value[:-1]).scaleb(6)))
 
 
 class _Timestamp(Timestamp):
@@ -2095,10 +2104,10 @@ class _Timestamp(Timestamp):
 
     @staticmethod
     def timestamp_to_json(dt: datetime) -> str:
-        nanos = dt.microsecond * 1e3
         if dt.tzinfo is not None:
             # change timezone aware datetime objects to utc
             dt = dt.astimezone(timezone.utc)
+        nanos = dt.microsecond * 1e3
         copy = dt.replace(microsecond=0, tzinfo=None)
         result = copy.isoformat()
         if (nanos % 1e9) == 0:
